@@ -223,6 +223,71 @@ def _run_shard(args):
         return {'job': job, 'harness_error': ''.join(traceback.format_exception(type(e), e, e.__traceback__))}
 
 
+def _child_main(conn, fn, args):
+    try:
+        res = fn(args)
+    except BaseException as e:
+        res = {'harness_error': ''.join(traceback.format_exception(type(e), e, e.__traceback__))}
+    try:
+        conn.send(res)
+    finally:
+        conn.close()
+
+
+def run_children(fn, arglist, nproc, deadline=None):
+    """Run fn(args) for every args in its own forked process (at most nproc at a time).
+
+    Returns (results, died, unfinished): results[i] is fn's return value or None; died = [(i, exitcode)] for
+    children that ended without a result (killed by a signal: a crash inside the code under test, or the
+    OOM killer); unfinished = indexes abandoned because the wall deadline passed.  Unlike multiprocessing.Pool
+    a dying child neither hangs the run nor loses the other results.
+    """
+    import multiprocessing as mp
+    from multiprocessing.connection import wait
+    ctx = mp.get_context('fork')
+    pending = list(range(len(arglist)))
+    running = {}          # conn -> (proc, index)
+    results = [None] * len(arglist)
+    died, unfinished = [], []
+    while pending or running:
+        while pending and len(running) < nproc:
+            i = pending.pop(0)
+            rconn, wconn = ctx.Pipe(duplex=False)
+            proc = ctx.Process(target=_child_main, args=(wconn, fn, arglist[i]))
+            proc.start()
+            wconn.close()
+            running[rconn] = (proc, i)
+        timeout = None if deadline is None else max(0.0, deadline - time.time())
+        ready = wait(list(running), timeout=timeout)
+        if not ready:
+            if deadline is not None and time.time() >= deadline:
+                for conn, (proc, i) in running.items():
+                    proc.kill()
+                    unfinished.append(i)
+                unfinished.extend(pending)
+                break
+            continue
+        for conn in ready:
+            proc, i = running.pop(conn)
+            try:
+                results[i] = conn.recv()
+            except (EOFError, OSError):
+                proc.join(5)
+                died.append((i, proc.exitcode))
+            else:
+                proc.join(30)
+            conn.close()
+    return results, died, unfinished
+
+
+def _regressions_child(args):
+    modname, prop, known = args
+    import importlib
+    mod = importlib.import_module(modname)
+    n, bad, stale = run_regressions(mod, prop, known)
+    return {'n': n, 'bad': bad, 'stale': stale}
+
+
 def _shrink_shard(args):
     modname, job, bucket, budget = args
     import importlib
@@ -311,12 +376,23 @@ def main_check(mod, tier: str, seed: int, nproc: int | None = None) -> int:
         return EXIT_HARNESS
 
     # replay tier first
-    try:
-        n_reg, reg_bad, stale = run_regressions(mod, prop, known)
-    except Exception:
-        print(f'HARNESS-ERROR property={prop} regression replay crashed', flush=True)
-        traceback.print_exc()
-        return EXIT_HARNESS
+    crash_violations: list[tuple[str, dict]] = []
+    rres, rdied, runf = run_children(_regressions_child, [(mod.__name__, prop, known)], 1, time.time() + 900)
+    if rdied or runf or rres[0] is None or 'harness_error' in rres[0]:
+        if rdied and rdied[0][1] in (-11, -6, -7, -4, -8):
+            # the interpreter itself crashed while replaying committed cases: never happens on a tree where the
+            # property holds (the cases pass there), so it is reported, not swallowed
+            b = f'{prop}/crash/interpreter-killed-by-signal{-rdied[0][1]}/regression-replay'
+            crash_violations.append((b, {'case': {'regressions_dir': f'regressions/{prop}'}, 'check': 'regressions',
+                                         'expected': 'replay completes', 'observed': f'exit code {rdied[0][1]}'}))
+            n_reg, reg_bad, stale = 0, [], []
+        else:
+            print(f'HARNESS-ERROR property={prop} regression replay crashed: died={rdied} unfinished={runf}', flush=True)
+            if rres[0] and 'harness_error' in rres[0]:
+                print(rres[0]['harness_error'])
+            return EXIT_HARNESS
+    else:
+        n_reg, reg_bad, stale = rres[0]['n'], [tuple(x) for x in rres[0]['bad']], rres[0]['stale']
 
     if os.environ.get('VERIF_ONLY_REGRESSIONS'):    # development aid: replay tier only, no evidence written
         for s_ in stale:
@@ -330,21 +406,23 @@ def main_check(mod, tier: str, seed: int, nproc: int | None = None) -> int:
     deadline = t0 + budget_s
     nproc = nproc or int(os.environ.get('VERIF_NPROC', '16'))
     ctx = mp.get_context('fork')
-    # Shards are collected as they finish; a shard that is still running after the wall budget plus a grace
-    # period is abandoned (pool terminated) and the run is reported as INCONCLUSIVE for that shard - a time
-    # budget is never a verdict.
-    results = []
-    unfinished = 0
+    # Every shard is its own forked process. A shard still running after the wall budget plus a grace period is
+    # abandoned and the run is INCONCLUSIVE for it (a time budget is never a verdict); a shard whose interpreter
+    # is killed by SIGSEGV/SIGABRT/SIGBUS is a crash inside the code under test and is reported as a violation;
+    # any other abnormal end (e.g. SIGKILL from the OOM killer) is a harness error.
     grace = float(os.environ.get('VERIF_WALL_GRACE', '180'))
-    with ctx.Pool(min(nproc, max(1, len(jobs))), maxtasksperchild=1) as pool:
-        it = pool.imap_unordered(_run_shard, [(mod.__name__, j, deadline) for j in jobs], chunksize=1)
-        for _ in jobs:
-            try:
-                results.append(it.next(timeout=max(1.0, deadline + grace - time.time())))
-            except mp.TimeoutError:
-                unfinished = len(jobs) - len(results)
-                pool.terminate()
-                break
+    raw, died, unf = run_children(_run_shard, [(mod.__name__, j, deadline) for j in jobs],
+                                  min(nproc, max(1, len(jobs))), deadline + grace)
+    unfinished = len(unf)
+    for i, code in died:
+        if code in (-11, -6, -7, -4, -8):
+            b = f'{prop}/crash/interpreter-killed-by-signal{-code}/{jobs[i].get("check", "?")}'
+            crash_violations.append((b, {'case': {'job': jobs[i]}, 'check': jobs[i].get('check', '?'),
+                                         'expected': 'shard completes', 'observed': f'exit code {code}'}))
+        else:
+            print(f'HARNESS-ERROR property={prop} shard ended abnormally (exit code {code}): job={jobs[i]}', flush=True)
+            return EXIT_HARNESS
+    results = [r for r in raw if r is not None]
     results.sort(key=lambda r: canon(r.get('job')))
 
     herr = [r for r in results if 'harness_error' in r]
@@ -411,6 +489,10 @@ def main_check(mod, tier: str, seed: int, nproc: int | None = None) -> int:
             new_buckets.append(b)
 
     violations: list[tuple[str, str]] = []
+    for b, rec in crash_violations:
+        path = write_replay(prop, rec['check'], b, rec, seed, False)
+        violations.append((b, path))
+        print(f'new bucket {b}: {rec["observed"]} ({rec["case"]})')
     for name, b, rec in reg_bad:
         path = write_replay(prop, rec['check'], b, rec, seed, True)
         violations.append((b, path))
@@ -423,8 +505,7 @@ def main_check(mod, tier: str, seed: int, nproc: int | None = None) -> int:
         tasks.append((mod.__name__, discs[b]['jobs'][0], b, shrink_budget))
     shrunk: list[Any] = []
     if tasks:
-        with ctx.Pool(min(nproc, len(tasks)), maxtasksperchild=1) as pool:
-            shrunk = pool.map(_shrink_shard, tasks, chunksize=1)
+        shrunk, _sd, _su = run_children(_shrink_shard, tasks, min(nproc, len(tasks)), time.time() + 900)
     for i, b in enumerate(new_buckets):
         ent = discs[b]
         rec = ent['cases'][0]
